@@ -18,10 +18,11 @@ import (
 	"time"
 
 	"verifharness/internal/core"
+	rm "verifharness/internal/refmodel"
 	"verifharness/internal/sqlx"
 )
 
-var c19Workloads = []string{"C12", "C04b", "C05b", "C08c", "C17c", "C13g", "ddl"}
+var c19Workloads = []string{"C12", "C04b", "C05b", "C08c", "C17c", "C13g", "ddl", "logwrap"}
 
 func c19Reps(env *core.Env) int {
 	if env.Thorough() {
@@ -36,7 +37,7 @@ func init() {
 		Level:    "exploration",
 		NeedRace: true,
 		Rule: "case = one repetition of one concurrent workload executed inside the race-detector build of the harness+engine: ExecuteSQL clients with forced checkpoints and statistics scans (C12), multi-statement goroutine transactions with aborts (C04b/C05b), " +
-			"auto-commit DML with checkpoints in small pools = evictions (C08c), concurrent index inserters/deleters/scanners (C17c), the buffer pool driven directly by 2-8 user goroutines incl. flushes and deallocations (C13g) and CREATE TABLE concurrent with DML (ddl); quick 3, thorough 20 repetitions each, GOMAXPROCS 4 and 16. " +
+			"auto-commit DML with checkpoints in small pools = evictions (C08c), concurrent index inserters/deleters/scanners (C17c), the buffer pool driven directly by 2-8 user goroutines incl. flushes and deallocations (C13g) CREATE TABLE by three callers concurrent with DML (ddl) and statements that fill the log buffer several times next to short read-only statements (logwrap); quick 3, thorough 20 repetitions each, GOMAXPROCS 4 and 16. " +
 			"Oracle: every 'WARNING: DATA RACE' block in the GORACE log is parsed; fingerprint = innermost frame inside github.com/ryogrid/SamehadaDB/lib of each of the two accesses (function names; line numbers dropped); " +
 			"in scope when an access is in storage/, recovery/, container/, catalog/, execution/, materialization/, types/, concurrency/checkpoint_manager.go, concurrency/statistics_updater.go or common/; the request manager's / background loops' shutdown flags are out of scope (listed in the evidence only). " +
 			"Non-trivial case = the workload executed statements concurrently (operations counter > 0); distinct by (workload, repetition). A run in which the detector saw nothing at all while a listed race finding is still open fails as vacuous",
@@ -84,6 +85,8 @@ func c19Run(env *core.Env, idx int) *core.CaseResult {
 		}
 	case "ddl":
 		inner = c19DDL(sub, rep)
+	case "logwrap":
+		inner = c19LogWrap(sub, rep)
 	}
 	res.Add("workload_runs_"+w, 1)
 	if inner != nil {
@@ -337,6 +340,54 @@ func c19DDL(env *core.Env, rep int) *core.CaseResult {
 	}
 	wg.Wait()
 	<-done
+	res.Add("statements", n.Load())
+	guarded(func() { db.S.ShutdownForTescase() })
+	return res
+}
+
+// c19LogWrap: one caller's statements change every one of 400 rows of ~1.5 KB (about 1.2 MB of log per statement: the log buffer of
+// 516 KB fills and is swapped inside AppendLogRecord several times) while other callers run short read-only statements, whose
+// BEGIN / COMMIT records are appended at the same time.
+func c19LogWrap(env *core.Env, rep int) *core.CaseResult {
+	res := core.NewResult()
+	r := env.Rand(rep)
+	db := sqlx.Open(fmt.Sprintf("%s/c19lw_%d", env.TmpDir, rep), 8192, sqlx.Options{})
+	db.CreateTableAPI("big", ilCols, []string{"skiplist", "", ""}) // (the wide column carries no index: long indexed strings are a listed C06 finding)
+	db.CreateTableSQL("small", ilCols)
+	for i := 0; i < 400; i += 8 {
+		var rows []rm.Row
+		for j := i; j < i+8; j++ {
+			rows = append(rows, rm.Row{rm.Int(int32(j)), rm.Int(int32(j % 7)), rm.Str(fmt.Sprintf("w%d.", j) + strings.Repeat(string(rune('a'+r.Intn(26))), 1400+r.Intn(200)))})
+		}
+		sql, _ := sqlx.InsertSQL("big", ilCols, rows)
+		db.S.ExecuteSQL(sql)
+	}
+	for i := 0; i < 10; i++ {
+		db.S.ExecuteSQL(fmt.Sprintf("INSERT INTO small(id, k, v) VALUES (%d, %d, 's');", i, i))
+	}
+	var n atomic.Int64
+	var stop atomic.Bool
+	var wg sync.WaitGroup
+	for c := 0; c < 5; c++ {
+		wg.Add(1)
+		go func(c int) {
+			defer wg.Done()
+			defer func() { recover() }()
+			for i := 0; !stop.Load() && i < 20000; i++ {
+				db.S.ExecuteSQL(fmt.Sprintf("SELECT id FROM small WHERE id = %d;", (c+i)%10))
+				n.Add(1)
+			}
+		}(c)
+	}
+	func() {
+		defer func() { recover() }()
+		for i := 0; i < 4; i++ {
+			db.S.ExecuteSQL(fmt.Sprintf("UPDATE big SET k = %d WHERE id >= 0;", 100+i))
+			n.Add(1)
+		}
+	}()
+	stop.Store(true)
+	wg.Wait()
 	res.Add("statements", n.Load())
 	guarded(func() { db.S.ShutdownForTescase() })
 	return res
